@@ -17,8 +17,9 @@ TYPES = {
     "Query": ("object", [], {
         "node": ("Node", ""), "a": ("A", ""), "an": ("A!", ""), "u": ("U", ""), "us": ("[U]", ""),
         "nodes": ("[Node!]!", ""), "mat": ("[[Int!]]", ""), "ints": ("[Int!]", ""), "str": ("String!", ""),
-        "any": ("Any", "(i: In, l: [Int], r: Int! = 2)"), "opt": ("Int", "(v: Int)"), "col": ("Color", ""),
-        "flt": ("Float", ""), "ident": ("ID", ""), "named": ("Named", "")}),
+        "any": ("Any", "(i: In, l: [Int], r: Int! = 2, j: Any, c: Color = RED, ll: [[Int!]])"), "opt": ("Int", "(v: Int)"), "col": ("Color", ""),
+        "flt": ("Float", ""), "ident": ("ID", ""), "named": ("Named", ""),
+        "req": ("Int!", "(r: Int! = 2, i: In)"), "reqa": ("A!", "(r: Int! = 2)")}),
     "Mutation": ("object", [], {"m1": ("Int", "(x: Int)"), "m2": ("A", ""), "m3": ("Int!", ""), "m4": ("[Int]", "")}),
     "A": ("object", ["Node", "Named"], {
         "id": ("ID!", ""), "name": ("String", ""), "n": ("Int!", ""), "b": ("B", ""), "bs": ("[B!]", ""),
@@ -224,6 +225,10 @@ DOCS = [
      ['{"r":1}', '{"r":1,"v":2,"i":{"y":3}}', '{"r":1,"v":null,"i":null}', '{"v":1}', '{"r":"x"}']),
     ("query($v: Int = 4, $l: [Int] = [1]) { any(l: $l) opt(v: $v) }", ['{}', '{"v":null,"l":null}', '{"l":5}']),
     ("{ a { any any2: any(s: \"t\", i: {y: [1]}) } }", ["{}"]),
+    ("query($v: Int) { any(j: {a: $v, b: [1, 2.5, \"s\", true, null, E]}, c: GREEN) }", ['{}', '{"v":3}']),
+    ("{ any(j: [1, {k: 2}], c: null, ll: 1) x: any(ll: [[1], [2, 3]]) y: any(j: 99999999999, l: []) }", ["{}"]),
+    ("query($v: Int) { str req(r: $v) }", ['{}', '{"v":null}', '{"v":1}']),
+    ("query($v: Int, $i: In) { a { n } reqa(r: $v) { n } x: req(i: $i) }", ['{}', '{"v":null,"i":{"x":null}}', '{"v":1,"i":null}']),
     ("{ __typename a { __typename } }", ["{}"]),
     ("{ a { u { ... on A { u { ... on C { c } } } ... on C { c } } } }", ["{}"]),
     ("{ a { ... @skip(if: true) { n } ... @include(if: true) { e } } }", ["{}"]),
@@ -245,7 +250,8 @@ COV_DOCS = [
 
 
 ARGS = {("Query", "any"): ["", "(l: 2)", "(i: {y: [1]}, r: 7)", "(l: [$v, 1])", "(i: null, l: null)"],
-        ("Query", "opt"): ["", "(v: 3)", "(v: $v)"], ("Mutation", "m1"): ["", "(x: 2)", "(x: $v)"],
+        ("Query", "opt"): ["", "(v: 3)", "(v: $v)"], ("Query", "req"): ["", "(r: $v)", "(r: 1, i: {y: 2})"],
+        ("Query", "reqa"): ["", "(r: $v)"], ("Mutation", "m1"): ["", "(x: 2)", "(x: $v)"],
         ("A", "any"): ["", "(s: \"t\")", "(i: {x: $v})"]}
 
 
@@ -386,7 +392,8 @@ def oracle_ref(ctx, model, triples, rows, family="exec_sync"):
         robs, cls = r.rsplit(" cls=", 1)
         if robs.startswith("model-"):
             raise MachineryError(f"reference executor failed on {rd}: {robs}")
-        if iobs.split(" log=")[0] == robs:
+        bug = "E(b," in iobs       # a SuspectedValidationBug surfaced although the document is valid
+        if iobs.split(" log=")[0] == robs and not bug:
             fam["agree"] += 1
             continue
         if cls != "-" and ctx.known_hit(cls):
@@ -395,7 +402,8 @@ def oracle_ref(ctx, model, triples, rows, family="exec_sync"):
         ctx.oracle_failures += 1
         if len(ctx.violations) < 8:
             ctx.violation({"family": family, "case": ic, "model_case": mc_of[ic], "case_readable": rd, "impl": iobs,
-                           "reference": robs, "what": "the response differs from the reference executor's "
+                           "reference": robs, "what": "execution of a valid document reported a suspected validation bug"
+                           if bug else "the response differs from the reference executor's "
                            "(spec section 6 with apollo-compiler's documented choices)"})
         else:
             ctx.violations.append("(not written)")
